@@ -40,6 +40,6 @@ func TestCheck(t *testing.T) {
 		for _, s := range ss {
 			r.Explore(mc.Config{Name: s.name, Bound: s.bound, Prune: s.prune}, tsskit.Program(s.p, nil))
 		}
-		r.Extra["rule"] = "histories of H(client, kind in 6, receive time in 5, clock reading in 4) and U(in-flight exchange, reported transmit time in 4): all histories of 3 steps (thorough 4); all histories of 7 steps (9) within 4 (5) deviations from normal operation, from stores prefilled with 0/7/8/9 exchanges"
+		r.Extra["rule"] = "histories of H(client, kind in 6, receive time in 6, clock reading in 4) and U(in-flight exchange, reported transmit time in 5: kernel time, none, 1 ns before the receive time, exactly the receive time, a sibling's time): all histories of 3 steps (thorough 4); all histories of 7 steps (9) within 4 (5) deviations from normal operation, from stores prefilled with 0/7/8/9 exchanges"
 	})
 }
